@@ -172,6 +172,54 @@ def ref_op(kind, a, b=None):
     raise AssertionError(kind)
 
 
+class Infeasible(Exception):
+    pass
+
+
+def int_feasible(n, env):
+    """Exact value of int-typed sub-expressions (None for float-typed ones). Raises Infeasible when
+    evaluating would build an astronomically large integer (int ** huge int, huge factorial):
+    such cases are skipped, the implementation is never asked to compute them."""
+    k = A.kind(n)
+    if k == "ConstantExpression":
+        v = plain(n.value)
+        return v if is_intlike(v) else None
+    if k == "VariableExpression":
+        v = env.get(n.identifier)
+        return v if is_intlike(v) else None
+    kids = [int_feasible(c, env) for c in (n.left, n.right) if c is not None]
+    if any(v is None for v in kids):
+        return None
+    if k == "NegateExpression":
+        return -kids[0]
+    if k == "SgnExpression":
+        return (kids[0] > 0) - (kids[0] < 0)
+    if k == "AbsExpression":
+        return abs(kids[0])
+    if k == "FactorialExpression":
+        if kids[0] > 2000:
+            raise Infeasible()
+        return math.factorial(kids[0]) if kids[0] >= 0 else None
+    if len(kids) != 2:
+        return None
+    a, b = kids
+    if k == "AddExpression":
+        return a + b
+    if k == "SubtractExpression":
+        return a - b
+    if k == "MultiplyExpression":
+        return a * b
+    if k == "PowerExpression":
+        if b < 0:
+            return None
+        if abs(a) > 1 and b * abs(a).bit_length() > 200000:
+            raise Infeasible()
+        return a**b
+    if k == "EqualExpression":
+        return a if a == b else None
+    return None  # division and anything else is float-typed
+
+
 def check_eval(ctx, case):
     text = case["text"]
     try:
@@ -190,6 +238,14 @@ def check_eval(ctx, case):
             ctx.count("rejected-text")
             return
     env = decode_ctx(case["ctx"])
+    try:
+        int_feasible(root, env)
+    except Infeasible:
+        ctx.count("skipped:astronomical-integer")
+        return
+    except (OverflowError, RecursionError):
+        ctx.count("skipped:astronomical-integer")
+        return
     used = A.variables(root)
     missing = [v for v in used if env.get(v) is None]
     key = (text, repr(sorted(case["ctx"].items())), case.get("build"), case.get("child_on_left"))
